@@ -23,11 +23,18 @@ class SigchldHelper:
     @contextlib.contextmanager
     def track(self):
         self._read_pipe, self._write_pipe = os.pipe()
+        # The pipe is written to by the interpreter's C-level signal handler
+        # (see `wait()`), which requires a non-blocking file descriptor.
+        os.set_blocking(self._write_pipe, False)
+        existing_wakeup_fd = signal.set_wakeup_fd(
+            self._write_pipe, warn_on_full_buffer=False
+        )
         existing_handler = signal.signal(signal.SIGCHLD, SigchldHelper._handler)
         try:
             yield
         finally:
             signal.signal(signal.SIGCHLD, existing_handler)
+            signal.set_wakeup_fd(existing_wakeup_fd)
             os.close(self._write_pipe)
             os.close(self._read_pipe)
             self._returncodes.clear()
@@ -35,12 +42,17 @@ class SigchldHelper:
             self._read_pipe = None
 
     def wait(self) -> Tuple[int, int]:
-        _ = os.read(self._read_pipe, 1)
+        # The pipe is the interpreter's signal "wakeup fd": a byte is written
+        # to it at the moment a signal arrives. Relying on the Python-level
+        # handler to write the byte instead is racy: a SIGCHLD that arrives
+        # just before the `read()` system call blocks only sets a flag, the
+        # handler does not run and the read would never return.
+        while len(self._returncodes) == 0:
+            _ = os.read(self._read_pipe, 1)
         return self._extract_any()
 
     def _add_returncode(self, pid: int, returncode: int) -> None:
         self._returncodes.append((pid, returncode))
-        os.write(self._write_pipe, b"\0")
 
     def _extract_any(self) -> Tuple[int, int]:
         # Precondition: `self._returncodes` must be non-empty.
